@@ -9,7 +9,9 @@ import (
 	"fmt"
 	"os"
 	"path/filepath"
+	"runtime/debug"
 	"sort"
+	"strings"
 	"sync"
 	"time"
 )
@@ -208,7 +210,7 @@ func main() {
 	for k := *from; k < *to; k++ {
 		traceReset(*prop, k)
 		rng := NewRng(seed, *prop, k)
-		res := d.run(k, rng)
+		res := runGuarded(d, k, rng)
 		res.Type, res.Prop, res.Case = "case", *prop, k
 		if res.Verdict == "" {
 			switch {
@@ -247,4 +249,21 @@ func (w *World) finish(fpParts []string, nontrivial bool, sample interface{}) Ca
 	}
 	res.Sample = sample
 	return res
+}
+
+// runGuarded turns a panic of the harness itself (outside the guarded API
+// calls) into an inconclusive case instead of killing the child. A panic
+// whose stack goes through sod is left alone: the runner reports it.
+func runGuarded(d *driver, k int, rng *Rng) (res CaseResult) {
+	defer func() {
+		if r := recover(); r != nil {
+			st := string(debug.Stack())
+			if strings.Contains(st, "github.com/0xrawsec/sod.") && !strings.Contains(panicSite(st), "-") {
+				panic(r)
+			}
+			stats.Count("harness_panics", 1)
+			res = CaseResult{Verdict: "inconclusive", Inconclusive: fmt.Sprintf("HARNESS-PANIC: %v | %s", r, first(st, 600))}
+		}
+	}()
+	return d.run(k, rng)
 }
